@@ -5,6 +5,8 @@ import (
 	"os"
 	"strings"
 
+	"github.com/evolbioinfo/gotree/io/nexus"
+	"github.com/evolbioinfo/gotree/io/phyloxml"
 	"github.com/evolbioinfo/gotree/tree"
 )
 
@@ -170,6 +172,55 @@ func zzCmdLibCases(group int) []zzCmdLibCase {
 				return out, false
 			}},
 		}
+	case 13:
+		var tr bool
+		chanOf := func(ts []*tree.Tree) chan tree.Trees {
+			ch := make(chan tree.Trees, len(ts))
+			for i, t := range ts {
+				ch <- tree.Trees{Tree: t, Id: i}
+			}
+			close(ch)
+			return ch
+		}
+		return []zzCmdLibCase{
+			{func() []string { return []string{"reformat", "newick"} }, func(ts []*tree.Tree) (string, bool) {
+				return zzNewicks(ts), false
+			}},
+			{func() []string {
+				a = []string{"reformat", "nexus"}
+				a, tr = zzBoolOpt(a, "translate", "translate")
+				return a
+			}, func(ts []*tree.Tree) (string, bool) {
+				s, err := nexus.WriteNexus(chanOf(ts), tr)
+				return s, err != nil
+			}},
+			{func() []string { return []string{"reformat", "phyloxml"} }, func(ts []*tree.Tree) (string, bool) {
+				s, err := phyloxml.WritePhyloXML(chanOf(ts))
+				return s, err != nil
+			}},
+		}
+	case 17:
+		return []zzCmdLibCase{
+			{func() []string { return []string{"nni"} }, func(ts []*tree.Tree) (string, bool) {
+				out := ""
+				r := &tree.NNIRearranger{}
+				for _, t := range ts {
+					var err error
+					r.Rearrange(t, func(re tree.Rearrangement) bool {
+						if err = re.Apply(); err != nil {
+							return false
+						}
+						out += t.Newick() + "\n"
+						err = re.Undo()
+						return err == nil
+					})
+					if err != nil {
+						return out, true
+					}
+				}
+				return out, false
+			}},
+		}
 	case 15:
 		var nm string
 		return []zzCmdLibCase{
@@ -195,7 +246,7 @@ func zzCmdLibCases(group int) []zzCmdLibCase {
 }
 
 // H_CMD_lib: see the comment at the top of this file; the parameter `group`
-// selects the commands of one property (5, 7, 9, 14, 15).
+// selects the commands of one property (5, 7, 9, 13, 14, 15, 17).
 func H_CMD_lib() {
 	group := sxParam("group", 7)
 	cases := zzCmdLibCases(group)
